@@ -458,6 +458,11 @@ func (t *transitiveClosure) addElement(
 		// to ensure all nested types are included.
 		for _, typeName := range typeNames {
 			typeInfo := imageIndex.ByName[typeName]
+			if _, isMethod := typeInfo.element.(*descriptorpb.MethodDescriptorProto); isMethod {
+				// Methods are added, or skipped if their request or response
+				// type is excluded, when their service is added.
+				continue
+			}
 			if err := t.addElement(typeInfo.element, "", false, imageIndex, opts); err != nil {
 				return err
 			}
@@ -525,8 +530,8 @@ func (t *transitiveClosure) addElement(
 			}
 			inputMode, outputMode := t.elements[inputInfo.element], t.elements[outputInfo.element]
 			if inputMode == inclusionModeExcluded || outputMode == inclusionModeExcluded {
-				// The input or ouptut is excluded, so this method is also excluded.
-				t.elements[inputInfo.element] = inclusionModeExcluded
+				// The input or output is excluded, so this method is not added to
+				// the closure; remapMethod drops it from the service.
 				continue
 			}
 			if err := t.addElement(method, "", false, imageIndex, opts); err != nil {
